@@ -361,6 +361,10 @@ A(M("c08-model-col", "C08", PA, "model = int(line[10:14].strip())", "model = int
 from mutants_r3_w3 import E as _R3_W3  # noqa: E402
 
 MUTANTS.extend(_R3_W3)
+# round 4 (worker W3): generators, format detection, shared memo results, write paths of the CLI tools, pandas stand-in evaluation
+from mutants_r4_w3 import E as _R4_W3  # noqa: E402
+
+MUTANTS.extend(_R4_W3)
 # round 4 (worker W1): classes added to the evaluated rules of C01, C02, C12, C13, C16
 from mutants_r4_w1 import E as _R4_W1  # noqa: E402
 
@@ -495,7 +499,7 @@ A(M("c06-dangling", "C06", TT, "            if nt1 is not None and nt2 is not No
 A(M("c01-str-order", "C01", C, 'return "\\n".join(("{} {} {}".format(i, c, j) for i, c, j in self.entries))', 'return "\\n".join(("{} {} {}".format(i, j, c) for i, c, j in self.entries))', "bpseq-text"))
 A(M("c01-fromstring-field", "C01", C, "entry = Entry(int(fields[0]), fields[1], int(fields[2]))", "entry = Entry(int(fields[0]), fields[1], int(fields[0]))", "bpseq-text"))
 A(M("c01-multistrand-first", "C01", C, "            first = last + 1\n", "            first = last\n", "multistrand-text"))
-A(M("c09-splitter-nofit", "C09", "splitter.py", "                df_to_write = fit_to_pdb(model_df)\n                write_pdb(df_to_write, output_path)", "                write_pdb(model_df, output_path)", "splitter-wiring"))
+A(M("c09-splitter-nofit", "C09", "splitter.py", "                df_to_write = fit_to_pdb(model_df)\n                write_pdb(df_to_write, output_path)", "                write_pdb(model_df, output_path)", ["splitter-wiring", "fit-before-write"]))  # round 4: read along the paths to the writer
 
 # ---------------------------------------------------------------- rename + reflow twins (sa/align.py)
 def R(id, props, file, func, rename):
